@@ -4,3 +4,5 @@ open PgmVerif
 #print axioms PgmVerif.C19_row_perm
 #print axioms PgmVerif.C19_zero_on_independent
 #print axioms PgmVerif.C19_lambda_tie
+#print axioms PgmVerif.C19_pearson_cell
+#print axioms PgmVerif.C19_pearson_stat_nonneg
